@@ -53,8 +53,13 @@ def random_edits(rnd, additions):
             else:
                 out.append({'k': 'emplace', 'type': rnd.choice(['term', 'term', 'axiom', 'function']),
                             'def': fg.fill(rnd, rnd.choice(ADD_DEFS + ['$[%d]=$[%d]', '[α∈ℬ($[%d])] α∪$[%d]']), 12, dangling=0)})
-        elif r < 0.45:
+        elif r < 0.41:
             out.append({'k': 'swapdefs', 'i': n, 'j': rnd.randrange(12)})
+        elif r < 0.47:
+            # a definition parked in the convention field and back: the texts of the schema stay the same multiset
+            if rnd.random() < 0.5:
+                out.append({'k': 'setconv', 'i': n, 'text': fg.fill(rnd, rnd.choice(ADD_DEFS), 12, dangling=0)})
+            out.append({'k': 'swapfields', 'i': n})
         elif r < 0.6:
             out.append({'k': 'setexpr', 'i': n, 'text': fg.fill(rnd, rnd.choice(ADD_DEFS + ['ℬ($[%d]×$[%d])', '']), 12, dangling=0)})
         elif r < 0.7:
